@@ -20,7 +20,7 @@ import re
 from hypothesis import strategies as st
 
 from vf import runner
-from vf.engine import Case, Failure, h
+from vf.engine import Case, Failure, h, live_first
 from vf.project import Project
 from vf.render import c16_classes as rc
 
@@ -56,7 +56,7 @@ CUSTOM_KEYWORDS = ["Service", "Repo", "Ctl"]
 BASES = ["Alpha", "Bravo", "Delta", "Gamma", "Omega", "Sigma"]
 
 # deviations of the implementation from the documented model; one known/C16.json signature "dev:<name>" each
-DEVIATIONS = ("ts-loc-physical", "rs-block-comment-counted", "ts-abstract-skipped", "rs-generic-impl-unattributed")
+DEVIATIONS = tuple(live_first("C16", ("ts-loc-physical", "rs-block-comment-counted", "ts-abstract-skipped", "rs-generic-impl-unattributed")))
 
 
 # ------------------------------------------------------------------------------------ model
